@@ -1,4 +1,5 @@
 """C11 - construction validates: structural clauses of add_edge / add_face / add_cell and their tet/hex overrides"""
+from .canon import ceq, eq_match
 from .extract import AnalysisBroken
 from .facts import as_assign, estr, need_names, unwrap, walk
 from .lockstep import Ctx, elem_effects
@@ -320,12 +321,12 @@ def topology_cell(ck, f, reject):
     lam_ln = None
     for b, i, x in reject:
         for s_, pol, c in cn.facts(b):
-            if V and s_ == "(adjacent_find(%s.begin(), %s.end()) != %s.end())" % (V, V, V) and pol is True:
+            if V and s_ == ceq("adjacent_find(%s.begin(), %s.end())" % (V, V), "%s.end()" % V, "!=") and pol is True:
                 dup = True
-            m = re.fullmatch(r"\(%s\.size\(\) != \(2 \* distance\(%s\.begin\(\), unique\(%s\.begin\(\), %s\.end\(\), \[lambda@(\d+)\]\)\)\)\)" % ((re.escape(V or "?"),) * 4), s_)
-            if m and pol is True:
+            m = eq_match(s_, "!=", r"%s\.size\(\)" % re.escape(V or "?"), r"\(2 \* distance\(%s\.begin\(\), unique\(%s\.begin\(\), %s\.end\(\), \[lambda@(\d+)\]\)\)\)" % ((re.escape(V or "?"),) * 3), pol=pol, want="!=")
+            if m:
                 twice = True
-                lam_ln = int(m.group(1))
+                lam_ln = int(m[1].group(1))
     # the unique predicate identifies the two halfedges of one edge: a.idx()/2 == b.idx()/2 (or edge_handle equality)
     pred = False
     for g in f.fb.fns.values():
@@ -333,7 +334,7 @@ def topology_cell(ck, f, reject):
             gc = Canon(g)
             rets = [x for b, i, x in g.tops() if x.get("k") == "ret"]
             ps = gc.s(rets[0].get("x")) if len(rets) == 1 else ""
-            pred = ps in ("((P0.idx() / 2) == (P1.idx() / 2))", "(P0.edge_handle() == P1.edge_handle())", "((P0.idx() >> 1) == (P1.idx() >> 1))")
+            pred = ps in (ceq("(P0.idx() / 2)", "(P1.idx() / 2)"), ceq("P0.edge_handle()", "P1.edge_handle()"), ceq("(P0.idx() >> 1)", "(P1.idx() >> 1)"))
             pred_txt = ps
     (ck.ok if dup else lambda r, w, t: ck.violate(r, w, t, "C11.topology:add_cell:duplicate"))("C11.topology", f.where, "add_cell rejects a halfedge used twice (adjacent_find != end)")
     (ck.ok if (twice and pred) else lambda r, w, t: ck.violate(r, w, t, "C11.topology:add_cell:matched"))("C11.topology", f.where, "add_cell rejects unless every halfedge is matched by its opposite (|V| == 2 * |unique(V)| under an edge-wise predicate idx/2 == idx/2)")
@@ -358,13 +359,13 @@ def dedup(ck, c, f, reject):
         if (h, True) in fs:
             m = re.fullmatch(r"edge_handle\((.+)\)|(.+)\.edge_handle\(\)", r)
             X = (m.group(1) or m.group(2)) if m else None
-            if X and ("%s[P0]" % vcache) in X and ("(halfedge(%s).to_vertex() == P1)" % X, True) in fs:
+            if X and ("%s[P0]" % vcache) in X and (ceq("halfedge(%s).to_vertex()" % X, "P1"), True) in fs:
                 bu_ok = True
         elif (h, False) in fs:
             E = r
-            if {("(edge(%s).from_vertex() == P0)" % E, True), ("(edge(%s).to_vertex() == P1)" % E, True)} <= fs:
+            if {(ceq("edge(%s).from_vertex()" % E, "P0"), True), (ceq("edge(%s).to_vertex()" % E, "P1"), True)} <= fs:
                 fwd = True
-            if {("(edge(%s).from_vertex() == P1)" % E, True), ("(edge(%s).to_vertex() == P0)" % E, True)} <= fs:
+            if {(ceq("edge(%s).from_vertex()" % E, "P1"), True), (ceq("edge(%s).to_vertex()" % E, "P0"), True)} <= fs:
                 bwd = True
     (ck.ok if bu_ok else lambda r, w, t: ck.violate(r, w, t, "C11.dedup:cache"))("C11.dedup", f.where, "add_edge (vertex cache on) returns the edge of a halfedge h leaving the from-vertex only under the atomic fact to(h) == to-vertex (%s)" % shapes[-1:])
     (ck.ok if (fwd and bwd) else lambda r, w, t: ck.violate(r, w, t, "C11.dedup:linear"))("C11.dedup", f.where, "add_edge (linear scan) returns an existing edge for (from,to) and for (to,from), each under both atomic endpoint facts (forward %s, backward %s)" % (fwd, bwd))
